@@ -77,6 +77,7 @@ type seeCtx struct {
 	memo   map[ssa.Value]*Expr
 	at     ssa.Instruction // load site for store-kill filtering
 	ps     *pstate         // path being enumerated (nil outside path mode)
+	defAt  ssa.Instruction // observation point for pointees of address values (path end)
 }
 
 // Of returns the expression for v evaluated in its own function, without
@@ -175,8 +176,13 @@ func (c *seeCtx) of1(v ssa.Value) *Expr {
 	case *ssa.Builtin:
 		return &Expr{Op: OpFunc, Name: v.Name(), Typ: v.Type()}
 	case *ssa.Alloc:
-		// The address of a local/heap object. Describe what it points to.
-		return &Expr{Op: OpNew, Typ: v.Type(), Args: []*Expr{c.loadAlloc(v, nil)}}
+		// The address of a local/heap object. Describe what it points to, as
+		// observed at the end of the path (path mode) or flow-insensitively.
+		prev := c.at
+		c.at = c.defAt
+		e := &Expr{Op: OpNew, Typ: v.Type(), Args: []*Expr{c.loadAlloc(v, nil)}}
+		c.at = prev
+		return e
 	case *ssa.UnOp:
 		switch v.Op {
 		case token.MUL:
